@@ -21,7 +21,47 @@ fn ids_of(w: &World, r: &mut Rng) -> Vec<Id> {
     ids
 }
 
-fn structured(r: &mut Rng, w: &World) -> Vec<u8> {
+/// Versions near the victim's frontier for member `id` (state-aware hostility): boundaries are
+/// where admission and skip rules change their mind.
+/// role 0: delta watermark, 1: delta start version, 2: first key-value version, 3: max version op
+fn near(r: &mut Rng, w: &World, to: usize, id: &Id, role: u8) -> u64 {
+    let (gc, mv) = w.nodes.get(to).and_then(|n| n.as_ref()).and_then(|n| n.view.get(id)).map(|c| (c.gc, c.mv)).unwrap_or((0, 0));
+    let pick = r.below(10);
+    match role {
+        0 => match pick {
+            0..=3 => gc,
+            4..=5 => 0,
+            6 => gc.saturating_add(1),
+            7 => mv,
+            8 => mv.saturating_add(1),
+            _ => ver(r),
+        },
+        1 => match pick {
+            0..=3 => 0,
+            4..=6 => mv,
+            7 => mv.saturating_sub(1),
+            8 => mv.saturating_add(1),
+            _ => ver(r),
+        },
+        2 => match pick {
+            0..=3 => mv,
+            4..=5 => mv.saturating_add(1),
+            6 => mv.saturating_sub(1),
+            7 => gc,
+            8 => 1,
+            _ => ver(r),
+        },
+        _ => match pick {
+            0..=2 => mv,
+            3..=5 => mv.saturating_add(1),
+            6 => mv.saturating_sub(1),
+            7 => gc,
+            _ => ver(r),
+        },
+    }
+}
+
+fn structured(r: &mut Rng, w: &World, to: usize) -> Vec<u8> {
     let ids = ids_of(w, r);
     let mut b = Vec::new();
     codec::put_u16(&mut b, codec::MAGIC);
@@ -38,26 +78,45 @@ fn structured(r: &mut Rng, w: &World) -> Vec<u8> {
             }
         }
     };
+    let aware = r.chance(0.6);
     let delta = |r: &mut Rng, b: &mut Vec<u8>| {
         let mut ops = Vec::new();
+        let mut cur: Option<Id> = None;
+        let mut last_v = 0u64;
         for _ in 0..r.below(8) {
             match r.below(3) {
                 0 => {
                     ops.push(0u8);
-                    codec::put_id(&mut ops, r.pick(&ids));
-                    codec::put_u64(&mut ops, ver(r));
-                    codec::put_u64(&mut ops, ver(r));
+                    let id = r.pick(&ids).clone();
+                    codec::put_id(&mut ops, &id);
+                    let (a, b) = if aware { (near(r, w, to, &id, 0), near(r, w, to, &id, 1)) } else { (ver(r), ver(r)) };
+                    codec::put_u64(&mut ops, a);
+                    codec::put_u64(&mut ops, b);
+                    cur = Some(id);
+                    last_v = 0;
                 }
                 1 => {
                     ops.push(1u8);
-                    codec::put_str(&mut ops, *r.pick(&["a", "b", "", "é", "svc"]));
+                    codec::put_str(&mut ops, *r.pick(&["a", "b", "", "é", "svc", "k0", "k1", "zz"]));
                     codec::put_str(&mut ops, *r.pick(&["v", "", "long-value-long-value"]));
-                    codec::put_u64(&mut ops, ver(r));
+                    let v = match (&cur, aware) {
+                        (Some(id), true) => {
+                            // mostly increasing from near the frontier, so that the stream decodes
+                            last_v = if last_v == 0 { near(r, w, to, id, 2) } else if r.chance(0.1) { near(r, w, to, id, 2) } else { last_v.saturating_add(1 + r.below(2)) };
+                            last_v
+                        }
+                        _ => ver(r),
+                    };
+                    codec::put_u64(&mut ops, v);
                     ops.push(r.below(4) as u8);
                 }
                 _ => {
                     ops.push(2u8);
-                    codec::put_u64(&mut ops, ver(r));
+                    let v = match (&cur, aware) {
+                        (Some(id), true) => near(r, w, to, id, 3).max(if r.chance(0.7) { last_v } else { 0 }),
+                        _ => ver(r),
+                    };
+                    codec::put_u64(&mut ops, v);
                 }
             }
         }
@@ -144,15 +203,15 @@ fn mutate(r: &mut Rng, mut b: Vec<u8>) -> Vec<u8> {
     b
 }
 
-pub fn craft(r: &mut Rng, w: &World, captured: &[Vec<u8>]) -> Vec<u8> {
+pub fn craft(r: &mut Rng, w: &World, captured: &[Vec<u8>], to: usize) -> Vec<u8> {
     match r.below(3) {
-        0 => structured(r, w),
+        0 => structured(r, w, to),
         1 if !captured.is_empty() => {
             let c = r.pick(captured).clone();
             mutate(r, c)
         }
         _ => {
-            let c = structured(r, w);
+            let c = structured(r, w, to);
             mutate(r, c)
         }
     }
